@@ -7,7 +7,7 @@ LEVEL = "proof"
 RULE = ("the LTS theorems quantify over all interleavings, capacities and child policies; the tie runs the three real binaries "
         "(PV_TRACE hooks on) with scripted children {eager, blocks of 2/64 lines, read-everything-first} on inputs of "
         "{0,1,2,4095,4096,4097} lines, >64 KiB and 1 MiB totals and single lines larger than both pipes (cache), under varied "
-        "scheduling (nice), with long runs of repeated lines (cache) and with stdin stalling around the queue-page multiples; each run must finish within the timeout with complete ordered output, and its recorded event trace "
+        "scheduling (nice), with long runs of repeated lines (cache), with short inputs over {empty, a, b} in every arrangement (an empty first record repeated later) and with stdin stalling around the queue-page multiples; each run must finish within the timeout with complete ordered output, and its recorded event trace "
         "(enqueue/write/poison/close, consume/read/out) must be accepted by the visible-event automaton that the LTS refines; "
         "non-trivial = distinct (tool, child policy, input shape)")
 ASSUMPTIONS = ["real system ⊆ LTS is validated on the visible events only (child and pipe steps are not observable)",
@@ -61,6 +61,26 @@ def run(ctx):
                                            "events_head": ev[:60], "correspondence": "PV_TRACE event log vs PV.Wrapper.astep (refined by the LTS)"},
                                            no_input=True, summary=f"{tool}: recorded event trace not accepted by the wrapper automaton: {r}")
                     break
+    # record shapes: short inputs over {empty, a, b} with repeats in every position (an empty FIRST record, an empty answer before any
+    # other, a repeat of the first record ...): state carried from one record to the next in either thread
+    import itertools
+    seqs = [t for n in range(1, 6) for t in itertools.product((b"", b"a", b"b"), repeat=n)]
+    rng.shuffle(seqs)
+    seqs.sort(key=lambda t: (t[0] != b"" or t.count(b"") < 2))        # the ones that start with a repeated empty record first
+    for tool, base in (("cache", ["cache"]), ("foldfilter", ["foldfilter", "-w", "30"]), ("b64filter", ["b64filter"])):
+        for t in seqs[:(45 if ctx.tier == "quick" else 363)]:
+            if tool == "b64filter":
+                data = b"".join(base64.b64encode(l + (b"\n" if i % 2 else b"")) + b"\n" for i, l in enumerate(t))
+            else:
+                data = b"".join(l + b"\n" for l in t)
+            st, out, err = pvlib.run_tool([ctx.bin(base[0])] + base[1:] + ["cat"], data, env=pvlib.san_env(), timeout=20)
+            ctx.count("wrapper-shapes", 1, [(tool, data)])
+            if st != 0 or out != data:
+                what = "did not terminate (deadlock)" if st == "HANG" else f"status {st}, output {out[:40]!r}"
+                pvlib.report_violation(ctx, f"wrapper-shape:{tool}:{hx(data)}", {"argv": base + ["cat"], "stdin_hex": hx(data), "status": st,
+                                       "stderr": err.decode(errors="replace")[-300:]},
+                                       summary=f"{' '.join(base)} cat on {data!r}: {what}")
+                break
     # paced input: the producer of stdin stalls around the queue-page multiples so that the output thread is fully caught up there
     for tool, base in (("cache", ["cache"]), ("foldfilter", ["foldfilter", "-w", "30"]), ("b64filter", ["b64filter"])):
         data, pauses = wrappers.paced_corpus(tool)
